@@ -56,6 +56,10 @@ func (h *harness) tailCase(r *rng, name string) {
 	var keys [][]byte
 	for i := 0; i < nrec; i++ {
 		k := []byte(fmt.Sprintf("k%d", r.intn(12)))
+		emptyRec := r.chance(6) // Put("", ""): a record whose 6-byte header is all zeroes
+		if emptyRec {
+			k = []byte{}
+		}
 		keys = append(keys, k)
 		if r.chance(20) {
 			_ = db.Delete(k)
@@ -64,6 +68,10 @@ func (h *harness) tailCase(r *rng, name string) {
 			n := []int{0, 1, 7, 60, 200, 490, 500, 510, 1000, 4070, 4090}[r.intn(11)]
 			if onePer {
 				n = 300 + r.intn(180)
+			}
+			if emptyRec {
+				n = 0
+				h.stat("tail.emptyrecord")
 			}
 			room := int(c.Cfg.MaxSeg) - 512 - 10 - len(k)
 			if n > room {
